@@ -65,7 +65,8 @@ class C18(Suite):
     props_module = "Cpppo.Props.C18"
     rule = ("histories of 1-4 rotated files (1-4 records each, equal and increasing timestamps, comments, blank "
             "lines, corrupt-timestamp lines, unusable payloads, gz/bz2 copies with or without the plain file) x "
-            "start point x look-ahead x factor x load schedule (with limit/upcoming): exhaustive over small shapes "
+            "start point x look-ahead x factor x load schedule (with limit/upcoming; first calls at, after or before the "
+            "wall-clock basis at which the start point is scheduled): exhaustive over small shapes "
             "plus seeded random, plus a malformed stream (empty files, corrupt first lines, disordered timestamps, "
             "clock going back) and a correspondence-only stream for the known equal-timestamp-boundary class; "
             "non-trivial = in the scope of the proved theorem, at least one event delivered, and either a file "
@@ -129,6 +130,9 @@ class C18(Suite):
                          {"ext": "", "lines": [R(1020, 4), R(1030, 5)]}], "hist": 990, "loads": step(990, 8), "scale": 100}
         yield {"files": [{"ext": "", "lines": [R(1000, 1), ["c"], ["r", 1005, "badjson"], R(1010, 2), R(1020, 3)]}],
                "hist": 990, "loads": step(990, 8), "scale": 100}
+        # the start point (1100) is scheduled 3 wall-clock seconds (30 ticks at factor 10) after the first call
+        yield {"files": [{"ext": "", "lines": [["r", 1000, {"40001": 1, "40002": 5}], R(1090, 2), R(1096, 6, 40002), R(1110, 3)]}],
+               "hist": 1100, "factor": [10, 1], "loads": [[1070 + 2 * i, None, None] for i in range(26)], "scale": 1000}
 
     def exhaustive(self, maxfiles, rng, quick):
         for nf in range(1, maxfiles + 1):
@@ -149,12 +153,16 @@ class C18(Suite):
                         for la in (None, 10):
                             if quick and rng.random() < 0.5:
                                 continue
-                            n = (ts[-1] + 30 - hist) // 10 + 1
-                            case = {"files": files, "hist": hist, "la": la, "scale": 2,
-                                    "loads": [[hist + 10 * i, None, None] for i in range(max(n, 3))]}
-                            if not self.boundary_ok(case):
-                                case["known_class"] = "equal-boundary"
-                            yield case
+                            for lead in (0, 20):           # lead > 0: polled before the scheduled 'basis'
+                                if lead and ((quick and rng.random() < 0.5) or hist - lead < ts[0] - 10):
+                                    continue
+                                first = hist - lead
+                                n = (ts[-1] + 30 - first) // 10 + 1
+                                case = {"files": files, "hist": hist, "la": la, "scale": 2,
+                                        "loads": [[first + 10 * i, None, None] for i in range(max(n, 3))]}
+                                if not self.boundary_ok(case):
+                                    case["known_class"] = "equal-boundary"
+                                yield case
 
     def random_case(self, rng, malformed=False):
         nf = rng.choice([1, 1, 2, 2, 3, 3, 4])
@@ -196,7 +204,9 @@ class C18(Suite):
         rng.shuffle(files)
         hist = rng.choice([980, 1000, 1010, t - 10, t, t + 10, rng.randint(990, max(t, 1000) + 20)])
         la = rng.choice([None, None, 0, 10, 20, 50])
-        loads, c = [], hist
+        # the replay may be polled before the wall-clock 'basis' at which the start point is scheduled: the
+        # historical clock historical + (now - basis) * factor is then still before 'historical'
+        loads, c = [], hist - rng.choice([0, 0, 0, 0, 10, 20, 30, 50, 100, 200])
         restricted = rng.random() < 0.4           # most schedules carry no limit / upcoming at all
         for _ in range(rng.randint(2, 12)):
             if restricted:
